@@ -2,20 +2,18 @@ use super::hook::TaskLifeCycle;
 use crate::{
     ActTask, Result,
     model::Step,
-    scheduler::{Context, Node, NodeKind, Task, TaskState},
+    scheduler::{Context, Node, Task, TaskState},
 };
 use std::sync::Arc;
 
-/// a child step (a step of a catch or of a timeout rule) is followed by the next step of its
-/// list, which runs beneath this task as well: the child is done when its whole chain is done
+/// a child (an act of the step, a step of a catch or of a timeout rule) is followed by the next
+/// one of its list, which runs beneath this task as well: the child is done when its whole
+/// chain is done
 fn is_chain_completed(child: &Arc<Task>) -> bool {
     let mut cur = child.clone();
     loop {
         if !cur.state().is_completed() {
             return false;
-        }
-        if !cur.is_kind(NodeKind::Step) {
-            return true;
         }
         let Some(next) = cur.node.next().upgrade() else {
             return true;
